@@ -574,6 +574,7 @@ def reloc_audit(binary):
 
 
 BASEK = 1 << 30
+AUX_COUNTS = [0, 0]     # images judged / accepted by the clauses reloc_image and vdso (added to the totals after the join)
 
 
 def reloc_image(chk, bins):
@@ -689,8 +690,8 @@ def reloc_image(chk, bins):
         if not v["wf"]:
             raise core.ToolError("relocation tables of %s/%s are not well formed (duplicate targets?)" % (rec["mode"], rec["build"]))
         with _LOCK:
-            chk.evaluations += 1
-            chk.traces += 0 if v["bad"] else 1
+            AUX_COUNTS[0] += 1
+            AUX_COUNTS[1] += 0 if v["bad"] else 1
         if v["bad"]:
             targets = {e[0] for e in rec["rela"] if e[1] == 8} | {e[0] for e in rec["rel"] if e[1] == 8}
             unapplied = [k for k in v["bad"] if k in targets]
@@ -893,8 +894,8 @@ def vdso_lookup(chk, bins):
         variants.append({"image": rec["build"], "resolved": rec["resolved"], "admissible": v["ok"], "definitional_values": v["def"],
                          "walk_conforms": v["conform"]})
         with _LOCK:
-            chk.evaluations += 1
-            chk.traces += 1 if v["ok"] else 0
+            AUX_COUNTS[0] += 1
+            AUX_COUNTS[1] += 1 if v["ok"] else 0
         if not v["ok"]:
             with _LOCK:
                 chk.violate({"clause": "vdso", "kind": "faulted" if rec["resolved"] == -2 else "pointer_is_not_the_symbol"},
@@ -906,8 +907,8 @@ def vdso_lookup(chk, bins):
         m.update({"admissible": v["ok"], "walk_conforms": v["conform"], "symbols_aligned_to_section": v["aligned"],
                   "definitional_values": v["def"], "walk_result": v["walk"]})
         with _LOCK:
-            chk.evaluations += 1
-            chk.traces += 1 if v["ok"] else 0
+            AUX_COUNTS[0] += 1
+            AUX_COUNTS[1] += 1 if v["ok"] else 0
         if not v["ok"]:
             with _LOCK:
                 chk.violate({"clause": "vdso", "kind": "pointer_is_not_the_symbol"},
@@ -959,6 +960,7 @@ def run(tier):
             bdir = core.cargo_build(template=tmpl, release=rel)
             bins[(mode, "release" if rel else "debug")] = os.path.join(bdir, "startprobe")
 
+    AUX_COUNTS[0] = AUX_COUNTS[1] = 0
     image_future = bg2.submit(lambda: (reloc_image(chk, bins), vdso_lookup(chk, bins)))
     envs_all = gen(chk, "env", 3)
     argvs = [v["argv"] for v in gen(chk, "argv", 0)]
@@ -1058,6 +1060,8 @@ def run(tier):
         action_coverage(chk, "Startup_MC.tla", ["Startup_boot.cfg", "Startup_lookup2.cfg"])
     image_future.result()
     bg2.shutdown()
+    chk.evaluations += AUX_COUNTS[0]
+    chk.traces += AUX_COUNTS[1]
     chk.extra["transcription_model_checked"] = chk.extra.get("transcription_model_checked", []) + aux_future.result()
     bg3.shutdown()
     core.log("C07: judged (t=%.0fs)" % (time.time() - chk.t0))
